@@ -222,6 +222,7 @@ func Main(p Prop) {
 	replayDir := flag.String("replays", "", "directory for replay files")
 	replay := flag.String("replay", "", "replay file: run its ops on implementation and model, print both")
 	ncases := flag.Int("n", 0, "override number of generated cases")
+	knownSigs := flag.String("known", "", "comma-separated violation signatures listed in known_findings.jsonl: reported, but not shrunk again")
 	flag.Parse()
 	start := time.Now()
 	thorough := *tier == "thorough"
@@ -370,6 +371,12 @@ func Main(p Prop) {
 
 	// oracle on every run (and on the shrunk disagreements)
 	if p.Oracle != nil {
+		known := map[string]bool{}
+		for _, k := range strings.Split(*knownSigs, ",") {
+			if k != "" {
+				known[k] = true
+			}
+		}
 		sigSeen := map[string]bool{}
 		addV := func(v *Violation) {
 			if v == nil || sigSeen[v.Signature] {
@@ -383,6 +390,10 @@ func Main(p Prop) {
 		}
 		for i, c := range cases {
 			v := p.Oracle(c, outs[i])
+			if v != nil && !sigSeen[v.Signature] && known[v.Signature] {
+				addV(v) // a recorded finding: report it as found, without spending time on shrinking it again
+				continue
+			}
 			if v != nil && !sigSeen[v.Signature] {
 				// shrink the violating run while the oracle still reports the same signature
 				sig := v.Signature
